@@ -164,6 +164,23 @@ def make_case(rng, tier, pos=None, pcls=None, via=None):
     pos = pos or rng.choice(POSITIONS)
     pcls = pcls or rng.choice(PCLASSES)
     cond = leaf_with_path(rng, doc, nodes, pos, pcls)
+    if pos in ("mapping-value", "list-item") and cond.get("args") and type(cond["args"][0]) in (dict, list) and rng.random() < 0.6:
+        # (round 12) a whole-container comparison depends on the resolved value only when the tested node IS (nearly) that
+        # container: plant the resolved argument (or a near miss) in the document and aim the rule at it
+        try:
+            V = M.decode_arg(cond["args"][0], doc)
+            if "<class" not in repr(V):
+                tgt = M.deep_copy(V)
+                if rng.random() < 0.3:
+                    if type(tgt) is dict:
+                        tgt["k"] = "vf-near-miss"
+                    elif tgt:
+                        tgt[rng.randrange(len(tgt))] = "vf-near-miss"
+                doc = dict(doc, vf_target=tgt)
+                p = PC.mkpath([{"p": "prim", "v": "vf_target"}])
+                nodes = [tgt]
+        except Exception:
+            pass
     if rng.random() < 0.3:
         # the path-carrying leaf deep inside nested combinations (either side, any operator)
         for _ in range(rng.randint(1, 3)):
